@@ -108,6 +108,124 @@ def scenario(order):
     return problems, 1
 
 
+# ------------------------------------------------------------------------------------------------------------
+# four Tubs: the gifter holds proxies from TWO origins whose connection-local ids collide
+class Keeper(Referenceable):
+    """a registered target that can hand out / take objects"""
+
+    def __init__(self):
+        self.obj = None
+        self.got = None
+
+    def remote_get(self):
+        return self.obj
+
+    def remote_set2(self, obj1, obj2):
+        self.got = (obj1, obj2)
+        return True
+
+
+class Thing(Referenceable):
+    def __init__(self, name):
+        self.name = name
+
+    def remote_whoami(self):
+        return [self.name, id(self)]
+
+
+def run_net(net, blocked=None, maxsteps=100000):
+    """deliver everything deliverable, except on links for which blocked(link) holds"""
+    n = 0
+    while True:
+        E.turn()
+        c = [ch for ch in net.deliverable() if not (blocked and blocked(ch[0]))]
+        if not c:
+            return n
+        net.step(c[0])
+        n += 1
+        if n > maxsteps:
+            raise RuntimeError("no quiescence")
+
+
+def scenario4(order, delay):
+    """alice (A) and dave (D) own one otherwise unreferenced Thing each; bob (B) holds a proxy of both -- each the 2nd
+    object sent on its connection, so both carry the same clid -- gives both to carol (C) in ONE call and forgets them at
+    once.  delay: carol's introduction to dave's Tub is held back until bob's releases have reached the owners."""
+    import weakref
+    from foolscap.referenceable import RemoteReference
+    E.reset_clock()
+    net = Net()
+    pems = [p for _, p in pems_sorted(4)]
+    tubs = {}
+    for role, idx in zip("abcd", order):
+        tubs[role] = make_tub(net, role, pems[idx])
+    A, B, C, D = tubs["a"], tubs["b"], tubs["c"], tubs["d"]
+    alice, carol, dave = Keeper(), Keeper(), Keeper()
+    fa, fc, fd = A.registerReference(alice), C.registerReference(carol), D.registerReference(dave)
+    got = {}
+    for k, f in (("a", fa), ("c", fc), ("d", fd)):
+        B.getReference(f).addCallback(lambda r, k=k: got.setdefault(k, r))
+    run_net(net)
+    if set(got) != {"a", "c", "d"}:
+        return [("oracle/gift-setup-failed", "bob could not reach alice, carol, dave: %r" % (sorted(got),))], 0
+    tx, ty = Thing("alice's thing"), Thing("dave's thing")
+    ids = {"alice's thing": id(tx), "dave's thing": id(ty)}
+    wx, wy = weakref.ref(tx), weakref.ref(ty)
+    alice.obj, dave.obj = tx, ty
+    prox = {}
+    got["a"].callRemote("get").addBoth(lambda r: prox.setdefault("x", r))
+    got["d"].callRemote("get").addBoth(lambda r: prox.setdefault("y", r))
+    run_net(net)
+    alice.obj = dave.obj = None
+    del tx, ty
+    gc.collect()
+    if not all(isinstance(prox.get(k), RemoteReference) for k in ("x", "y")):
+        return [("oracle/gift-setup-failed", "bob did not get proxies: %r" % (prox,))], 0
+    same_clid = prox["x"].tracker.clid == prox["y"].tracker.clid
+    if wx() is None or wy() is None:
+        return [("oracle/released-early", "an object died although bob holds a proxy of it")], 0
+    # bob hands both to carol in one call and forgets them
+    res = []
+    got["c"].callRemote("set2", obj1=prox["x"], obj2=prox["y"]).addBoth(res.append)
+    prox.clear()
+    gc.collect()
+
+    def blocked(link):
+        pair = {getattr(link, "client_tub", None), getattr(link, "server_tub", None)}
+        return delay and pair == {C, D}
+    run_net(net, blocked)          # everything except carol <-> dave: bob's decrefs (if any) reach the owners
+    gc.collect()
+    run_net(net, blocked)
+    run_net(net)                   # now the introduction to dave's Tub completes
+    for i in range(3):
+        if res:
+            break
+        E.clock.advance(130)
+        run_net(net)
+    problems = []
+    cfg = "roles %r, clids collide: %s, carol<->dave delayed: %s" % (list(order), same_clid, bool(delay))
+    if res != [True] or carol.got is None:
+        problems.append(("oracle/gift-not-delivered", "the call carrying two gifts (from two different owners) did not complete: %r; %s"
+                         % ([getattr(r, "value", r) for r in res], cfg)))
+    else:
+        for p, owner, name in ((carol.got[0], A, "alice's thing"), (carol.got[1], D, "dave's thing")):
+            if not isinstance(p, RemoteReference):
+                problems.append(("oracle/gift-identity-lost", "carol received %r for %s; %s" % (p, name, cfg)))
+                continue
+            if p.getRemoteTubID() != owner.tubID:
+                problems.append(("oracle/call-misrouted", "carol's proxy for %s points at another Tub; %s" % (name, cfg)))
+            out = []
+            p.callRemote("whoami").addBoth(out.append)
+            run_net(net)
+            if out != [[name, ids[name]]]:
+                problems.append(("oracle/call-misrouted", "a call through carol's proxy for %s returned %r, expected the original "
+                                 "object %r; %s" % (name, [getattr(r, "value", r) for r in out], [name, ids[name]], cfg)))
+    for t in (A, B, C, D):
+        t.stopService()
+    E.turn()
+    return problems, (1 if same_clid else 0)
+
+
 def gifts(ctx):
     import itertools
     with quiet():
@@ -121,3 +239,16 @@ def gifts(ctx):
             ctx.hist("gift_scenario", "held" if not problems else problems[0][0])
             for sig, text in problems:
                 ctx.fail(sig, "%s; three Tubs, role order %r" % (text, list(order)), replay=dict(scenario="gift", order=list(order)))
+        for order in [(0, 1, 2, 3), (3, 2, 1, 0), (1, 3, 0, 2), (2, 0, 3, 1)]:
+            for delay in (True, False):
+                try:
+                    problems, ok = scenario4(order, delay)
+                except Exception as e:
+                    import traceback
+                    problems, ok = [("oracle/gift-exception", "four-Tub gift scenario raised: %s" % traceback.format_exc()[-800:])], 0
+                ctx.case(["gift4", list(order), delay], nontrivial=bool(ok))
+                ctx.hist("gift4_scenario", "held" if not problems else problems[0][0])
+                for sig, text in problems:
+                    ctx.fail(sig, text, replay=dict(scenario="gift4: two origins with colliding clids gifted in one call, gifter "
+                                                    "drops both, recipient's link to the second owner delayed",
+                                                    order=list(order), delay=delay))
